@@ -6,6 +6,7 @@ import St4sd.Lemmas.C14Status
 import St4sd.Lemmas.C14Conc
 import St4sd.Lemmas.C14Sched
 import St4sd.Lemmas.C14Typed
+import St4sd.Lemmas.C14Listing
 /-!
 # C14 — Experiment state files are updated atomically and read back faithfully
 
@@ -14,6 +15,9 @@ Part 2 (fidelity): the status file encoding round-trips, for every history of up
 Part 3 (several writers): statements over *all* interleavings of concurrent updates of one file.
 Part 4 (typed values): the YAML/JSON state files hold typed values; read-back is exact (structural) equality, for every
 history; a write-skipping optimisation is sound iff its comparison is structural (Python's `==` is not).
+Part 5 (key-output listing): output.json is derived by reading output.txt back with a dosini reader; every value written
+on a `key=value` line is read back exactly by the reader that exists (no inline comment prefixes), and a reader with inline
+comment prefixes is faithful exactly on the values without `white space + prefix`.
 -/
 namespace St4sd.C14
 open St4sd.FsAtomic
@@ -508,5 +512,69 @@ example : pyEq (.map (.cons (.str [100]) (.cons (.seq (.cons (.int 3) (.cons (.b
 example : runStore writeAlways none [.int 3, .float 3 0] = some (.float 3 0) := by decide
 
 end Typed
+
+/-! ## Part 5: the key-output listing (output.txt -> dosini reader -> output.json) -/
+section Listing
+open St4sd.Listing St4sd.StatusFile
+
+/-- **C14 (fidelity of the listing, the reader that exists).**  For every option name made of ASCII letters and every value
+that survives `strip()` (the reader strips, as the status reader does), whatever other characters it contains - `#`, `;`,
+`%`, `=`, `:`, brackets, white space inside -: the dosini reader without inline comment prefixes returns exactly the
+value that `updateLogs` wrote on the line (under the lower-cased option name). -/
+theorem listing_line_roundtrip (k v : List Char) (hk : listKey k = true) (hne : k ≠ []) (hv : pyStrip v = v) :
+    readLine [] (writeLine k v) = some (lowerAscii k, v) := by
+  rw [readLine_writeLine [] k v hk hne (by intro c _; rfl), cutInline_nil, hv]
+
+/-- … for any set of inline comment prefixes: faithful on every value without a `white space + prefix` mark. -/
+theorem listing_line_roundtrip_unmarked (inl k v : List Char) (hk : listKey k = true) (hne : k ≠ [])
+    (hinl : ∀ c ∈ k, inl.contains c = false) (hv : pyStrip v = v) (hm : hasInlineMark inl v = false) :
+    readLine inl (writeLine k v) = some (lowerAscii k, v) := by
+  rw [readLine_writeLine inl k v hk hne hinl, cutInline_id inl v false hm, hv]
+
+/-- **Necessity.**  A reader with inline comment prefixes loses every value that contains a white-space character followed
+by one of the prefixes: what it returns is shorter than what was written (for every text before and after the mark). -/
+theorem inline_reader_loses_value (inl k a b : List Char) (c p : Char) (hk : listKey k = true) (hne : k ≠ [])
+    (hinl : ∀ x ∈ k, inl.contains x = false) (hc : pyIsSpace c = true) (hp : inl.contains p = true) :
+    ∃ v', readLine inl (writeLine k (a ++ c :: p :: b)) = some (lowerAscii k, v') ∧ v'.length < (a ++ c :: p :: b).length := by
+  refine ⟨_, readLine_writeLine inl k _ hk hne hinl, ?_⟩
+  have h1 := pyStrip_length_le (cutInline inl false (a ++ c :: p :: b))
+  have h2 := cutInline_mark_length inl c p b hc hp a false
+  simp only [List.length_append, List.length_cons] at h1 h2 ⊢
+  omega
+
+/-- a reader is faithful on all strip-stable values iff it has no inline comment prefix (prefixes that are not letters) -/
+theorem inline_reader_faithful_iff (inl : List Char) (hinl : ∀ c, letter c = true → inl.contains c = false) :
+    (∀ k v, listKey k = true → k ≠ [] → pyStrip v = v → readLine inl (writeLine k v) = some (lowerAscii k, v)) ↔ inl = [] := by
+  constructor
+  · intro h
+    cases inl with
+    | nil => rfl
+    | cons p inl =>
+      exfalso
+      have hp : (p :: inl).contains p = true := by simp
+      have hps : pyIsSpace p = false ∨ pyIsSpace p = true := by cases pyIsSpace p <;> simp
+      have hk : listKey ['f'] = true := by decide
+      have hki : ∀ x ∈ ['f'], (p :: inl).contains x = false := by
+        intro x hx; simp only [List.mem_cons, List.not_mem_nil, or_false] at hx; subst hx; exact hinl 'f' (by decide)
+      -- the value `a<sp>p…b`: strip-stable because it starts and ends with a letter
+      obtain ⟨v', hv', hlen⟩ := inline_reader_loses_value (p :: inl) ['f'] ['a'] ['b'] ' ' p hk (by simp) hki (by decide) hp
+      have hstrip : pyStrip (['a'] ++ ' ' :: p :: ['b']) = ['a'] ++ ' ' :: p :: ['b'] := by
+        simp [pyStrip, show pyIsSpace 'a' = false by decide, show pyIsSpace 'b' = false by decide]
+      have := h ['f'] _ hk (by simp) hstrip
+      rw [hv'] at this
+      simp only [Option.some.injEq, Prod.mk.injEq] at this
+      rw [this.2] at hlen
+      exact Nat.lt_irrefl _ hlen
+  · intro h k v hk hne hv
+    subst h
+    exact listing_line_roundtrip k v hk hne hv
+
+example : readLine [] (writeLine "filepath".toList "stages/stage0/hello/summary #1.csv".toList)
+    = some ("filepath".toList, "stages/stage0/hello/summary #1.csv".toList) := by decide
+example : readLine [] (writeLine "creationTime".toList "a ;b = %(x)s : [c]".toList)
+    = some ("creationtime".toList, "a ;b = %(x)s : [c]".toList) := by decide
+example : listKey "creationTime".toList = true ∧ pyStrip "x #y".toList = "x #y".toList ∧ hasInlineMark ['#', ';'] "x#y;z".toList = false := by decide
+
+end Listing
 
 end St4sd.C14
